@@ -124,3 +124,76 @@ def _d2_witness(tier, seed):
 
 from pyvc import replay as _rp  # noqa: E402
 _rp.BOUNDED_HOOKS.setdefault("C09", []).append(_d2_witness)
+
+
+# ---- elementwise scale derivations: the TFLite reference computes them in DOUBLE precision from the (float32) tensor scales -------
+# (reference: tensorflow/lite/kernels/mul.cc, add.cc: real multipliers are products / quotients of double(scale) values)
+SCALE_TRIPLES = {
+    "np.float32": dict(a=F32, b=F32, c=F32),       # what the compiler passes (scale_f32 from the TFLite reader)
+    "np.float64": dict(a=NpF64, b=NpF64, c=NpF64),
+    "float": dict(a=F64, b=F64, c=F64),            # external API users
+}
+
+
+def _triple(names):
+    return {k: dict(zip(names, v.values())) for k, v in SCALE_TRIPLES.items()}
+
+
+def twice_max(a, b):
+    return 2 * max(np.double(a), np.double(b))
+
+
+def real_mul(s1, s2, s_out):
+    """real multiplier of an elementwise multiplication, in double precision"""
+    return np.double(s1) * np.double(s2) / np.double(s_out)
+
+
+def real_out(s1, s2, s_out, shift):
+    """real output multiplier of an elementwise add/sub whose operands were brought to the scale 2 * max(s1, s2) / 2**shift"""
+    return twice_max(s1, s2) / (np.double(s_out) * 2**shift)
+
+
+contract(
+    "ethosu.vela.scaling:elementwise_mul_scale", props=["C09"], variants=_triple(["input_scale", "input2_scale", "output_scale"]),
+    requires=["math.isfinite(input_scale) and math.isfinite(input2_scale) and math.isfinite(output_scale)",
+              "input_scale > 0 and input2_scale > 0 and output_scale > 0",
+              # the real multiplier is a normal positive double (no overflow / underflow to zero)
+              "math.isfinite(np.double(input_scale) * np.double(input2_scale) / np.double(output_scale))",
+              "np.double(input_scale) * np.double(input2_scale) / np.double(output_scale) > 0"],
+    # quantised (TFLite QuantizeMultiplier) real multiplier s1 * s2 / s_out, evaluated in double precision
+    ensures=["implies(-32 <= exp_of(real_mul(input_scale, input2_scale, output_scale)) <= 31,"
+             " result[0] == tflite_q31(real_mul(input_scale, input2_scale, output_scale)) and result[1] == 31 - exp_of(real_mul(input_scale, input2_scale, output_scale)))",
+             "implies(not (-32 <= exp_of(real_mul(input_scale, input2_scale, output_scale)) <= 31), result[0] == 0 and result[1] == 16)"],
+    returns=TTuple(PyInt, PyInt), float_abstract=True,
+)
+
+
+# simplified_/advanced_elementwise_add_sub_scale: not under contract in this revision (their general float products and quotients put
+# every path query into z3's bit-blasted FloatingPoint procedure: no obligation was decided within 10 minutes); the double-precision
+# widening they share with elementwise_mul_scale is covered only by the mul contract above and by the D4 regression witness below.
+
+
+def _d4_witness(tier, seed):
+    """Fixed witness for finding D4 (fixed in /repo): float32 tensor scales must be widened to double before the derivation."""
+    from ethosu.vela import scaling as _sc
+    out = dict(name="elementwise add/sub scale derivations: float32 scales give the double-precision (TFLite reference) multipliers",
+               label="bounded", bound="3 fixed scale triples x {mul, simplified, advanced} (native evaluation, np.float32 arguments vs np.float64 arguments)",
+               cases=0, violations=[], known_lines=[])
+    bad = []
+    for (a, b, c) in ((0.1, 0.2, 0.3), (0.007874016, 0.003921569, 0.0627451), (1.5e-3, 2.5e-2, 7.1e-1)):
+        fa, fb, fc = np.float32(a), np.float32(b), np.float32(c)
+        da, db, dc = np.double(fa), np.double(fb), np.double(fc)
+        for name, f, g in (("elementwise_mul_scale", _sc.elementwise_mul_scale(fa, fb, fc), _sc.elementwise_mul_scale(da, db, dc)),
+                           ("simplified_elementwise_add_sub_scale", _sc.simplified_elementwise_add_sub_scale(fa, fb, fc)[2:],
+                            _sc.simplified_elementwise_add_sub_scale(da, db, dc)[2:]),
+                           ("advanced_elementwise_add_sub_scale", _sc.advanced_elementwise_add_sub_scale(fa, fb, fc, 8),
+                            _sc.advanced_elementwise_add_sub_scale(da, db, dc, 8))):
+            out["cases"] += 1
+            if tuple(f) != tuple(g):
+                bad.append("%s(np.float32 %r) == %r but the double-precision reference gives %r" % (name, (a, b, c), tuple(f), tuple(g)))
+    if bad:
+        _rp.report_bounded_finding(out, "C09", "D4", "; ".join(bad[:3]), dict(failures=bad))
+    return out
+
+
+_rp.BOUNDED_HOOKS.setdefault("C09", []).append(_d4_witness)
